@@ -309,9 +309,9 @@ def ob_spec_append(shape1, shape2):
 def obligations(tier, seed):
     q = tier == 'quick'
     obs = [ob_readspec(1, 'vector'), ob_readspec(2, 'vector'), ob_readspec(1, 'scalar_plate'), ob_readspec(2, 'scalar_plate'),
-           ob_readspec(2, 'latest'), ob_readspec(1, 'all_fibers'), ob_readspec(2, 'all_fibers')]
+           ob_readspec(2, 'latest'), ob_readspec(1, 'all_fibers'), ob_readspec(2, 'all_fibers'), ob_readspec(3, 'latest')]
     if not q:
-        obs += [ob_readspec(3, 'vector'), ob_readspec(3, 'scalar_plate'), ob_readspec(3, 'latest')]
+        obs += [ob_readspec(3, 'vector'), ob_readspec(3, 'scalar_plate'), ob_readspec(4, 'latest')]
     for s1, s2 in [((1, 2), (1, 2)), ((1, 3), (2, 2)), ((2, 2), (1, 3))] + ([] if q else [((2, 3), (2, 3)), ((1, 1), (1, 4)), ((2, 1), (2, 2))]):
         obs.append(ob_spec_append(s1, s2))
     return obs
